@@ -633,7 +633,15 @@ impl Exec {
                         return Ok(false);
                     }
                 };
-                self.do_insert(pp, *section, rr, "insert_rr", false)
+                let r = self.do_insert(pp, *section, rr, "insert_rr", false);
+                if *rtype == T_OPT {
+                    // state predicate for signatures: the inserted record is an OPT record
+                    return r.map_err(|mut v| {
+                        v.key.push_str("+inserts-OPT");
+                        v
+                    });
+                }
+                r
             }
             Op::InsertQuestion { name_text, qtype } => {
                 let ty = match type_from_u16(*qtype) {
